@@ -219,9 +219,12 @@ func (server *Server) ZRange(conn *redis.Conn, key string, start int, stop int, 
 	if err != nil {
 		return nil, err
 	}
-	_, zset, err := db.GetZSetRecord(key)
+	zset, err := db.LookupZSetRecord(key)
 	if err != nil {
 		return nil, err
+	}
+	if zset == nil {
+		return redis.NewArrayMessage(), nil
 	}
 	mems := zset.Range(start, stop, opt)
 	arrayMsg := redis.NewArrayMessage()
@@ -240,9 +243,12 @@ func (server *Server) ZRangeByScore(conn *redis.Conn, key string, start float64,
 	if err != nil {
 		return nil, err
 	}
-	_, zset, err := db.GetZSetRecord(key)
+	zset, err := db.LookupZSetRecord(key)
 	if err != nil {
 		return nil, err
+	}
+	if zset == nil {
+		return redis.NewArrayMessage(), nil
 	}
 	mems := zset.RangeByScore(start, stop, opt)
 	arrayMsg := redis.NewArrayMessage()
@@ -261,11 +267,18 @@ func (server *Server) ZRem(conn *redis.Conn, key string, members []string) (*red
 	if err != nil {
 		return nil, err
 	}
-	_, zset, err := db.GetZSetRecord(key)
+	zset, err := db.LookupZSetRecord(key)
 	if err != nil {
 		return nil, err
 	}
-	return redis.NewIntegerMessage(zset.Rem(members)), nil
+	if zset == nil {
+		return redis.NewIntegerMessage(0), nil
+	}
+	removedMemberCount := zset.Rem(members)
+	if len(zset.members) == 0 {
+		db.RemoveRecord(key)
+	}
+	return redis.NewIntegerMessage(removedMemberCount), nil
 }
 
 func (server *Server) ZScore(conn *redis.Conn, key string, member string) (*redis.Message, error) {
@@ -273,8 +286,8 @@ func (server *Server) ZScore(conn *redis.Conn, key string, member string) (*redi
 	if err != nil {
 		return nil, err
 	}
-	_, zset, err := db.GetZSetRecord(key)
-	if err != nil {
+	zset, err := db.LookupZSetRecord(key)
+	if err != nil || zset == nil {
 		return redis.NewNilMessage(), nil
 	}
 	score, ok := zset.Score(member)
